@@ -587,18 +587,29 @@ def index_loop_to_direct(fn: FuncNode, inplace: bool = False) -> FuncNode:
     return fn
 
 
-def desugar_list_comp_assigns(fn: FuncNode) -> FuncNode:
-    """`xs = [ELT for v in it]` -> `xs = []; for v in it: xs.append(ELT)` with a conditional ELT split into if/else   (catalogue D3)."""
-    fn = copy.deepcopy(fn)
+def desugar_list_comp_assigns(fn: FuncNode, only_tables: bool = False, inplace: bool = False) -> FuncNode:
+    """`xs = [ELT for v in it]` -> `xs = []; for v in it: xs.append(ELT)` with a conditional ELT split into if/else   (catalogue D3).
+    With only_tables, only comprehensions that filter/map a constant table - a display of tuples, or a single-definition local
+    bound to one - are rewritten (the loop is then unrolled by unroll_const_loops)."""
+    fn = fn if inplace else copy.deepcopy(fn)
+    defs = _single_defs(fn) if only_tables else {}
+
+    def is_table(it: ast.AST) -> bool:
+        if isinstance(it, ast.Name) and it.id in defs:
+            it = defs[it.id]
+        return isinstance(it, (ast.List, ast.Tuple)) and bool(it.elts) and all(isinstance(x, (ast.Tuple, ast.List)) for x in it.elts) and len(it.elts) <= 12
 
     def conv(st: ast.stmt) -> T.Optional[T.List[ast.stmt]]:
-        if not (isinstance(st, ast.Assign) and len(st.targets) == 1 and isinstance(st.targets[0], ast.Name) and isinstance(st.value, ast.ListComp)):
+        tgt = st.targets[0] if isinstance(st, ast.Assign) and len(st.targets) == 1 else (st.target if isinstance(st, ast.AnnAssign) else None)
+        if not (isinstance(tgt, ast.Name) and isinstance(getattr(st, 'value', None), ast.ListComp)):
             return None
         comp = st.value
         if len(comp.generators) != 1 or comp.generators[0].is_async or len(comp.generators[0].ifs) > 1:
             return None
         g = comp.generators[0]
-        out = st.targets[0].id
+        if only_tables and not is_table(g.iter):
+            return None
+        out = tgt.id
         if any(isinstance(n, ast.Name) and n.id == out for n in ast.walk(comp)):
             return None
 
